@@ -275,7 +275,7 @@ pub fn measure(t: &Ty) -> (usize, usize) {
             Ty::FixedList(_, n) => *n as usize,
             Ty::Map(..) => 2,
             Ty::Variant(c) => c.len(),
-            Ty::Future(_) | Ty::Stream(_) => 1,
+            Ty::Future(_) | Ty::Stream(_) => 5,
             _ if t.is_leaf() => leaf_rank(t),
             _ => 1,
         };
